@@ -2,7 +2,7 @@ package verifcheck
 
 // C07 part "recall": on larger indexes (200-3000 vectors) recall@10 against brute force and the
 // self-retrieval rate stay above floors measured on the unchanged tree, through every insert path
-// and after delete / vacuum / refine / compress / restart.
+// and after delete (10-50 % at a time, or a mass deletion of 80-90 % in one go) / vacuum / refine / compress / restart.
 
 import (
 	"encoding/json"
@@ -34,12 +34,17 @@ type c07RecallCase struct {
 	Data      string   `json:"data"`   // uniform | gauss | clustered | dups | zeros
 	Build     string   `json:"build"`  // single | batch | import | mixed
 	Chunk     int      `json:"chunk"`  // batch / import chunk size
-	Phases    []string `json:"phases"` // del10 | del30 | del50 | vacuum | refine | restart | compress | grow
+	Phases    []string `json:"phases"` // del10 | del30 | del50 | del80 | del90 | vacuum | refine | restart | compress | grow
 	NQ        int      `json:"nq"`
 	Anchor    string   `json:"anchor,omitempty"` // name of the fixed configuration this case instantiates ("" = generated)
 }
 
-var c07Phases = []string{"del10", "del30", "del50", "vacuum", "refine", "restart", "compress", "grow"}
+// del80 / del90: mass deletion in one go (no vacuum in between), so that the survivors are linked to each other
+// mostly through soft-deleted nodes: those must keep routing until a vacuum has re-linked the survivors.
+var c07Phases = []string{"del10", "del30", "del50", "del80", "del90", "vacuum", "refine", "restart", "compress", "grow"}
+
+// c07DelPct: share of the live vectors a delete phase removes.
+var c07DelPct = map[string]int{"del10": 10, "del30": 30, "del50": 50, "del80": 80, "del90": 90}
 
 func c07GenRecall(maxDim int) *rapid.Generator[c07RecallCase] {
 	return rapid.Custom(func(t *rapid.T) c07RecallCase {
@@ -178,6 +183,7 @@ type c07Point struct {
 	Short    int     `json:"short"`        // queries that returned fewer than min(k, live) results
 	EpLevel  int     `json:"max_level"`
 	Refining bool    `json:"needs_refine"`
+	MassVac  bool    `json:"after_mass_vacuum,omitempty"` // some vacuum before this checkpoint removed >= 80 % of the graph's nodes in one go
 }
 
 type c07rRun struct {
@@ -194,6 +200,7 @@ type c07rRun struct {
 	imported   bool // part of the current graph was built by VImport
 	restored   bool // a fast-import graph came back from a snapshot (needs-refine compensation lost)
 	counter    int  // harness estimate of the index's node counter (decides which batches take the parallel path)
+	massVac    bool // a vacuum has removed >= 80 % of the graph's nodes in one go
 	nSeq, nPar int  // nodes of the current graph inserted one by one (Index.Add) / by the parallel batch path
 	points     []c07Point
 	labels     map[string]bool
@@ -300,7 +307,7 @@ func (r *c07rRun) measure(after string) string {
 	if r.c.Anchor != "" {
 		cls = fmt.Sprintf("anchor:%s#%d", r.c.Anchor, len(r.points))
 	}
-	pt := c07Point{Class: cls, After: after, Live: len(live), Self: -1, Refining: h.NeedsRefine()}
+	pt := c07Point{Class: cls, After: after, Live: len(live), Self: -1, Refining: h.NeedsRefine(), MassVac: r.massVac}
 	if g, err := c07ReadGraph(r.e); err == nil {
 		pt.EpLevel = g.MaxLevel
 	}
@@ -404,8 +411,8 @@ func (r *c07rRun) measure(after string) string {
 
 func (r *c07rRun) phase(p string) string {
 	switch p {
-	case "del10", "del30", "del50":
-		pct := map[string]int{"del10": 10, "del30": 30, "del50": 50}[p]
+	case "del10", "del30", "del50", "del80", "del90":
+		pct := c07DelPct[p]
 		n := len(r.liveIDs) * pct / 100
 		for i := 0; i < n && len(r.liveIDs) > 1; i++ {
 			j := r.rng.intn(len(r.liveIDs))
@@ -417,8 +424,26 @@ func (r *c07rRun) phase(p string) string {
 			}
 		}
 	case "vacuum", "refine":
+		// white-box view: how many soft-deleted nodes are wired into the graph before / after the maintenance run
+		// (a forced "refine" runs a vacuum instead when the delete threshold of the maintenance policy is met)
+		deadBefore, liveBefore := 0, 0
+		if g, err := c07ReadGraph(r.e); err == nil {
+			deadBefore, liveBefore = g.Dead, g.Live
+		}
 		if err := r.e.VTriggerMaintenance(c07Index, p); err != nil {
 			return "harness: maintenance failed: " + err.Error()
+		}
+		if g, err := c07ReadGraph(r.e); err == nil && deadBefore > 0 && g.Dead == 0 {
+			// a vacuum ran: share of the graph's nodes it removed in one go
+			switch share := 100 * deadBefore / (deadBefore + liveBefore); {
+			case share >= 80:
+				r.massVac = true
+				r.labels["vacuum-of>=80%-dead-nodes(mass delete, no vacuum in between)"] = true
+			case share >= 50:
+				r.labels["vacuum-of-50-79%-dead-nodes"] = true
+			default:
+				r.labels["vacuum-of<50%-dead-nodes"] = true
+			}
 		}
 		if p == "refine" {
 			// one Refine call re-evaluates every live node; after a fast import this is what the turbo
@@ -575,6 +600,11 @@ func c07Anchors() []c07Anchor {
 		{quick: true, c: c07RecallCase{Anchor: "clusters-refine", Cfg: c07Cfg{Metric: "euclidean", Prec: "float32", M: 8, EfC: 40, Dim: 8}, N: 2400, Data: "clusters6", Build: "batch", Chunk: 100, Phases: []string{"refine", "refine", "restart"}, NQ: 200}},
 		// compression to int8 of a cosine index
 		{c: c07RecallCase{Anchor: "compress-int8", Cfg: c07Cfg{Metric: "cosine", Prec: "float32", M: 16, EfC: 40, Dim: 32}, N: 1000, Data: "gauss", Build: "batch", Chunk: 100, Phases: []string{"compress", "del10"}, NQ: 200}},
+		// mass deletion: 90 % of a 3000-vector index soft-deleted in one go (with M=8 a survivor keeps ~1.6 live
+		// neighbours, the survivors hang together through the dead nodes only), then ONE vacuum, which has to re-link
+		// the 300 survivors into a navigable graph of their own before the dead nodes go; then more inserts into the
+		// vacuumed graph and a restart
+		{quick: true, c: c07RecallCase{Anchor: "mass-delete", Cfg: c07Cfg{Metric: "euclidean", Prec: "float32", M: 8, EfC: 40, Dim: 16}, N: 3000, Data: "gauss", Build: "batch", Chunk: 100, Phases: []string{"del90", "vacuum", "grow", "restart"}, NQ: 200}},
 	}
 }
 
@@ -660,10 +690,11 @@ func (r *c07rRun) labelList() []string {
 
 const c07RecallRule = "GENERATED cases (rapid): N in {200..3000} vectors derived from a drawn data seed (uniform / gaussian / clustered / every vector 2-6 times / 10% zero vectors), dim in {2,3,8,16,32,64} (+128,256 in the thorough tier), " +
 	"M in {2,4,8,16} x efConstruction in {8,40,200} x {euclidean/float32, cosine/float32, euclidean/float16, cosine/int8}, built by single VAdd, VAddBatch, VImport(+snapshot) or a mix (chunk 50/200/1000), followed by 1-5 phases out of " +
-	"delete 10/30/50 %, vacuum, refine, restart, VCompress, grow (more single + batch inserts). ANCHOR cases: six fixed configurations (default M=16/efC=200 by batch and by single inserts on 64-d data, M=8/efC=40 float16 fast import, M=8/efC=40 single inserts on 64-d data, six separated clusters batch-built then refined twice and restarted, compression to int8) " +
+	"delete 10/30/50/80/90 % of the live vectors (80/90: mass deletion in one go, the survivors stay linked through soft-deleted nodes until the next vacuum), vacuum, refine, restart, VCompress, grow (more single + batch inserts). ANCHOR cases: seven fixed configurations (default M=16/efC=200 by batch and by single inserts on 64-d data, M=8/efC=40 float16 fast import, M=8/efC=40 single inserts on 64-d data, six separated clusters batch-built then refined twice and restarted, compression to int8, " +
+	"mass-delete: M=8/efC=40 16-d batch-built 3000 vectors, 90 % deleted in one go, ONE vacuum, grow, restart) " +
 	"where only the level seed and the data seed vary. After the build and after every phase 60 (anchors: 200) queries, half stored vectors and half fresh ones, measure recall@10 against brute force over the VGet read-back vectors " +
 	"(ties at the 10th distance count as hits) with efSearch=0 and efSearch=100, and the self-retrieval rate (query = stored vector => rank 1 is that vector or one at least as close). " +
-	"ORACLE: every checkpoint with >= 50 live vectors must reach the floors of its class, measured on the unchanged tree (/repo c682405, see the header of c07_floors_test.go): anchors (homogeneous, 320 seeds each): min(mean - 10 sd, min - 3 sd); " +
+	"ORACLE: every checkpoint with >= 50 live vectors must reach the floors of its class, measured on the unchanged tree (/repo c682405; mass-delete anchor and the 80/90 % delete phases on /repo b8f0d4c; see the header of c07_floors_test.go): anchors (homogeneous, 320-416 seeds each): min(mean - 10 sd, min - 3 sd); " +
 	"generated classes (M / efConstruction / data kind / intrinsic difficulty / int8 / share of one-by-one inserts; heterogeneous and heavy-tailed): min(mean - 10 sd, observed min - 0.40) with sd >= 0.03; " +
 	"the mean z-score of all checkpoints of a run must be >= -10 sd of the mean. Classes seen in < 15 cases, the zero-vector data kind and 2-3 dimensional int8 indexes (cliques of > 2*M identical vectors / collapsed codes) and fast-import graphs restored from a snapshot " +
 	"(the needs-refine compensation is not persisted) are observed only. NON-TRIVIAL = N >= 500."
@@ -738,6 +769,9 @@ func TestVerif_C07_recall(t *testing.T) {
 				continue
 			}
 			col.Label("checkpoint-asserted", 1)
+			if p.MassVac {
+				col.Label("checkpoint-asserted-after-vacuum-of>=80%-dead-nodes", 1)
+			}
 			if f.R1.Floor >= 0.5 {
 				col.Label("checkpoint-asserted-with-recall(ef100)-floor>=0.5", 1)
 			}
@@ -752,8 +786,8 @@ func TestVerif_C07_recall(t *testing.T) {
 		}
 	}
 	// anchor cases: fixed configurations whose only varying inputs are the two seeds, so that their
-	// checkpoint distributions are homogeneous and the 10-sigma floors are sharp. Quick tier: two anchors on
-	// shard 0; thorough tier: every anchor on every shard (VERIF_C07_ANCHORS=n: n seeds per anchor and shard,
+	// checkpoint distributions are homogeneous and the 10-sigma floors are sharp. Quick tier: the four anchors
+	// marked quick on shard 0; thorough tier: every anchor on every shard (VERIF_C07_ANCHORS=n: n seeds per anchor and shard,
 	// used for the floor measurement).
 	nAnch := 0
 	if verifkit.Thorough() || verifkit.Shard() == 0 {
